@@ -227,7 +227,7 @@ theorem coverage_Color666ToricCode :
     Generated.Color666ToricCode.certified.length = 4 ∧ Generated.Color666ToricCode.all.length = 4 := by
   decide +kernel
 theorem coverage_Color488Code :
-    Generated.Color488Code.certified.length = 6 ∧ Generated.Color488Code.all.length = 6 := by
+    Generated.Color488Code.certified.length = 36 ∧ Generated.Color488Code.all.length = 36 := by
   decide +kernel
 theorem coverage_Toric3DCode :
     Generated.Toric3DCode.certified.length = 27 ∧ Generated.Toric3DCode.all.length = 27 := by
